@@ -105,7 +105,10 @@ def get_signal_variance(spec, space):
 def _single_power_analyze(field, idx, binbounds):
     power_domain = PowerSpace(field.domain[idx], binbounds)
     pd = PowerDistributor(field.domain, power_domain, idx)
-    return pd.adjoint_times(field.weight(1)).weight(-1)  # divides by bin size
+    # weight only the analyzed space: the volume factors of the other
+    # subdomains cancel (and subdomains without volume factors are allowed)
+    res = pd.adjoint_times(field.weight(1, spaces=idx))
+    return res.weight(-1, spaces=idx)  # divides by bin size
 
 
 # MR FIXME: this function is not well suited for analyzing more than one
@@ -152,7 +155,7 @@ def power_analyze(field, spaces=None, binbounds=None,
     """
 
     for sp in field.domain:
-        if not sp.harmonic and not isinstance(sp, PowerSpace):
+        if not getattr(sp, "harmonic", False) and not isinstance(sp, PowerSpace):
             logger.warning("WARNING: Field has a space in `domain` which is "
                            "neither harmonic nor a PowerSpace.")
 
